@@ -79,4 +79,18 @@ ExpAgg(e) ==
      gens_sum |-> SeqSum([i \in DOMAIN e |-> Len(e[i])]),
      win_sum |-> [k \in 1..4 |-> FoldSet(LAMBDA i, acc : acc + TrialAgg(e[i]).winner[k], 0, solvedIdx)],
      per_trial |-> [i \in DOMAIN e |-> TrialAgg(e[i])]]
+\* The aggregates are functions of the recorded generations only.  When every trial has at most one solved generation
+\* ("the winner" is then independent of the order) re-ordering the generations of a trial - as sort.Sort(trial.Generations)
+\* does - changes none of the order-free aggregates.
+OrderFree(a) ==
+    [trials |-> a.trials, solved_count |-> a.solved_count, solved |-> a.solved, gens_sum |-> a.gens_sum, win_sum |-> a.win_sum,
+     per_trial |-> [i \in DOMAIN a.per_trial |->
+        LET t == a.per_trial[i] IN
+        [gens |-> t.gens, solved |-> t.solved, best_fit |-> t.best_fit, best_age |-> t.best_age, best_cplx |-> t.best_cplx,
+         div_sum |-> t.div_sum, winner |-> t.winner]]]
+AtMostOneSolved(t) == Cardinality({ i \in DOMAIN t : t[i].solved }) <= 1
+ExperPermutationInvariant(e) ==
+    (\A i \in DOMAIN e : AtMostOneSolved(e[i])) =>
+        \A i \in DOMAIN e : \A p \in Permutations(DOMAIN e[i]) :
+            OrderFree(ExpAgg([e EXCEPT ![i] = [j \in DOMAIN e[i] |-> e[i][p[j]]]])) = OrderFree(ExpAgg(e))
 =============================================================================
